@@ -16,7 +16,7 @@ pub fn def() -> CheckDef {
         bounds_quick: "X<=2 hyperedges, W<=3 nodes, S,T<=3 incidences (multiplicity 3 included), empty interfaces (layering ignores them; one shape with interfaces as control)",
         bounds_thorough: "X<=3, W<=4, S,T<=4",
         jobs,
-        budget_s: (170, 3000),
+        budget_s: (170, 1500),
     }
 }
 
@@ -171,7 +171,7 @@ pub fn cases(sh: Shape) -> Vec<Case> {
 pub fn jobs(tier: Tier, seed: u64) -> Vec<Job> {
     let per_job = Duration::from_secs(match tier {
         Tier::Quick => 90,
-        Tier::Thorough => 1200,
+        Tier::Thorough => 600,
     });
     let (wm, xm, im) = match tier {
         Tier::Quick => (3, 2, 3),
